@@ -186,3 +186,10 @@ var storeProp = h.Define(P, "store", func(t *rapid.T) chain.StoreCase { return c
 	func(c *h.Ctx, sc chain.StoreCase) { chain.RunStore(c, sc, "C01") })
 
 func TestStore(t *testing.T) { storeProp.Check(t) }
+
+// Concurrent checks (chain/conc.go): different invocations at the same time, and the same invocation at the same time
+// against a full store and against a store that lacks one of its delegations, both slow: every decision is the one the
+// rules give for THAT invocation and THAT store. Race-detector build.
+var concChainsProp = h.Define(P, "concchains", chain.DrawConcChains, func(c *h.Ctx, cc chain.ConcChains) { chain.RunConcChains(c, cc, "C01") })
+
+func TestConcurrentChains(t *testing.T) { concChainsProp.Check(t) }
